@@ -22,6 +22,7 @@ import (
 
 func init() {
 	VerifHarnesses["HarnessC17Led"] = HarnessC17Led
+	VerifHarnesses["HarnessC16Led"] = HarnessC16Led
 }
 
 // ---- native only: a minimal OpenRGB server (controller count, controller data, UpdateLEDs) ----
@@ -58,6 +59,12 @@ func orgbDeviceBlob(dev *openrgb.Device) []byte {
 }
 
 func orgbServe(ln net.Listener, dev *openrgb.Device, capture *verifrt.LedCapture, cancel func()) {
+	orgbServeDrop(ln, dev, capture, cancel, 0)
+}
+
+// orgbServeDrop: as orgbServe; with dropAfter > 0 the server does not cancel anything and goes away (closes the
+// connection) after that many frames, so that later LED updates fail.
+func orgbServeDrop(ln net.Listener, dev *openrgb.Device, capture *verifrt.LedCapture, cancel func(), dropAfter int) {
 	conn, err := ln.Accept()
 	if err != nil {
 		return
@@ -97,7 +104,11 @@ func orgbServe(ln net.Listener, dev *openrgb.Device, capture *verifrt.LedCapture
 				}
 				capture.Last = frame
 				capture.N++
-				if capture.N == 1 {
+				if dropAfter > 0 {
+					if capture.N >= dropAfter {
+						return
+					}
+				} else if capture.N == 1 {
 					cancel()
 				}
 			}
@@ -353,5 +364,69 @@ func HarnessC17Led() {
 		verifrt.Assert(sameColor(got, white1), "C17: the multinote key is lit")
 	default:
 		verifrt.Assert(sameColor(got, colors.Unavailable), "C17: LEDs without a function show the 'unavailable' colour")
+	}
+}
+
+// HarnessC16Led: the LED goroutine of a device for FRAMES refresh cycles in which any update may fail (the server
+// went away) at arbitrary instants of a non-decreasing clock; then the context is cancelled. The loop must end
+// (it may not block on the device mutex it took itself) and must leave the device mutex free, so that events and
+// the disconnect clean-up can proceed. Symbolically the loop runs as the only goroutine with lock tracking;
+// natively it runs as a goroutine against a fake server that drops the connection after the first frame.
+func HarnessC16Led() {
+	verifrt.Enable("led")
+	verifrt.Enable("led.fail")
+	verifrt.Enable("clock")
+	verifrt.Enable("locks")
+	keys := map[evdev.EvCode]config.Key{evdev.KEY_A: {Note: 60}}
+	cfg := config.Config{
+		KeyMappings:   []config.KeyMapping{{Name: "Piano", Midi: map[string]map[evdev.EvCode]config.Key{"": keys}}},
+		ActionMapping: map[evdev.EvCode]config.Action{evdev.KEY_ESC: config.Panic}, CollisionMode: config.CollisionOff,
+		Defaults: config.Defaults{Channel: 1, Velocity: 64}}
+	dev := openrgb.Device{Type: 5, Name: "Verif Keyboard", Location: "HID: /dev/hidraw0"}
+	for _, n := range []string{"Key: A", "Key: Escape", "Logo"} {
+		dev.LEDs = append(dev.LEDs, openrgb.LED{Name: n})
+		dev.Colors = append(dev.Colors, openrgb.Color{})
+	}
+	var capture verifrt.LedCapture
+	ctx, cancel := context.WithCancel(context.Background())
+	verifrt.RegisterLED(&dev, &capture, cancel)
+	port := 0
+	if !verifrt.Symbolic() {
+		ln, err := net.Listen("tcp", "127.0.0.1:0")
+		if err != nil {
+			panic(err)
+		}
+		defer ln.Close()
+		port = ln.Addr().(*net.TCPAddr).Port
+		go orgbServeDrop(ln, &dev, &capture, cancel, 1)
+	}
+	idev := input.Device{Handlers: []input.Handler{{DeviceInfo: input.VerifDeviceInfo("kbd", "event0")}}}
+	out := make(chan midi.Event, 16)
+	d := NewDevice(idev, config.DeviceConfig{Config: cfg}, out, nil, true, port, make(chan os.Signal, 1))
+	wg := sync.WaitGroup{}
+	wg.Add(1)
+	returned := false
+	if verifrt.Symbolic() {
+		d.handleOpenrgb(ctx, &wg)
+		returned = true
+	} else {
+		go func() {
+			d.handleOpenrgb(ctx, &wg)
+			returned = true
+		}()
+		// let the loop run into the dead connection for a while, then disconnect
+		for i := 0; i < 150 && capture.N < 1; i++ { // the first connection attempt is made after 250 ms
+			time.Sleep(10 * time.Millisecond)
+		}
+		time.Sleep(300 * time.Millisecond)
+		cancel()
+		for i := 0; i < 100 && !returned; i++ {
+			time.Sleep(20 * time.Millisecond)
+		}
+	}
+	verifrt.Cover("C16: LED loop ended")
+	verifrt.Assert(returned, "C16: the LED goroutine ends once its context is cancelled, whatever update failures occurred")
+	if returned {
+		verifrt.Assert(d.eventProcessMutex.TryLock(), "C16: the LED goroutine leaves the device mutex free")
 	}
 }
